@@ -177,6 +177,36 @@ def smooth (cap dim : Nat) (net : Net) (rounds : List (List Hit)) : Net :=
 def compactAndRetrain (cap dim : Nat) (net : Net) (hits : List Hit) : Net :=
   trainBatch cap dim false (compact net) hits
 
+/-! ## a new network -/
+
+/-- `create_initial_nodes`: sample `i` becomes the node at `(i % g, i / g)` with `g = ⌈√n⌉` -/
+def initialCoords (n g : Nat) : List Coord :=
+  (List.range n).map (fun i => (((i % g : Nat) : Int), ((i / g : Nat) : Int)))
+
+/-- the initial nodes; `held c` = how many of the initial inputs were assigned to the node at `c` -/
+def initialNet (dim n g : Nat) (held : Coord → Nat) : Net :=
+  (initialCoords n g).map (fun c => (c, ⟨c, held c, dim⟩))
+
+/-- `node.storage.resize(config.node_size)` on every node -/
+def resizeAll (size : Nat) (net : Net) : Net :=
+  net.map (fun e => (e.1, { e.2 with held := min e.2.held size }))
+
+/-- `Network::new` after the initial nodes exist: re-balancing rounds WITH growth under the temporary capacity
+    `data_size`, then every storage is cut to `node_size` -/
+def newNetwork (dataSize nodeSize dim n g : Nat) (held : Coord → Nat) (rounds : List (List Hit)) : Net :=
+  resizeAll nodeSize (rounds.foldl (retrainOnce dataSize dim true) (initialNet dim n g held))
+
+/-- the public operations on a network -/
+inductive Op where
+  | store (hits : List Hit)
+  | smooth (rounds : List (List Hit))
+  | compact (hits : List Hit)
+
+def applyOp (cap dim : Nat) (net : Net) : Op → Net
+  | .store hits => storeBatch cap dim net hits
+  | .smooth rounds => smooth cap dim net rounds
+  | .compact hits => compactAndRetrain cap dim net hits
+
 /-! ## storages and the elite (size bound only) -/
 
 /-- `Elitism::add_with_iter`: extend, sort + dedup (`norm`, float-dependent), truncate -/
